@@ -175,6 +175,8 @@ def run_tlc(module, cfg, *, workdir, files=None, workers=1, timeout=900, deadloc
         shutil.rmtree(d)
     d.mkdir(parents=True)
     for f in SPEC.rglob("*.tla"):
+        if f.parent.name == "proofs":   # TLAPS / Apalache modules: bin/proofs
+            continue
         shutil.copy(f, d / f.name)
     shutil.copy(cfg, d / (module + ".cfg"))
     for name, src in (files or {}).items():
